@@ -539,7 +539,7 @@ impl<'a> Iterator for FinalStateIterator<'a> {
     }
 }
 
-#[derive(Debug)]
+#[derive(Debug, Clone)]
 struct StateInConstruction {
     is_final: bool,
     default_successor: Option<usize>,
@@ -716,7 +716,10 @@ impl<T: Eq + Hash + Clone> AutomatonBuilder<T> {
         let n = self.size;
         let mut num_final_states = 0;
         let mut state_array = Vec::with_capacity(n);
-        for (i, s) in self.states.iter_mut().enumerate() {
+        for (i, s) in self.states.iter().enumerate() {
+            // work on a copy: cleanup must not change what the builder was given,
+            // otherwise a later call to build would see a different specification
+            let mut s = s.clone();
             // check the transitions as given by the caller, before cleanup
             // can choose a default successor or drop transitions
             let given = s.make_partition()?;
@@ -756,7 +759,8 @@ impl<T: Eq + Hash + Clone> AutomatonBuilder<T> {
         let num_states = self.size;
         let mut num_final_states = 0;
         let mut state_array = Vec::with_capacity(num_states);
-        for (i, s) in self.states.iter_mut().enumerate() {
+        for (i, s) in self.states.iter().enumerate() {
+            let mut s = s.clone();
             s.cleanup();
             let p = s.make_partition().unwrap();
             let successor = s.make_successor(&p);
